@@ -24,7 +24,6 @@ INF = float("inf")
 FINDING_MINCIRCLE = "stops-mincircle-none"
 FINDING_NANZ = "stops-nan-altitude-statistics"
 FINDING_LOOSE = "stops-mincircle-not-enclosing"
-FINDING_DISPATCH = "stops-dispatch-verbose-as-downsampling"
 
 
 # ------------------------------------------------------------------------------------------------
@@ -286,7 +285,6 @@ class P(Prop):
         "findStopsGlobal: tracklib's minCircle sometimes returns a circle that does NOT enclose the segment (its three-point case returns the smallest two-point circle containing the third point instead of the circle through the three boundary points Welzl's recursion needs; about 40 %% of the random orders on the five lattice fixes of the witness): a reward is granted where the documented criterion gives 0 (the routine's defect is theorem mincircle_not_enclosing about its model; circle_three_minimal / mincircle_three say why it needs four fixes). The circle returned is recorded from the run and handed to the model as such (the certificate enclosedB then rightly fails); class '%s', judged once it is listed in known_findings.json (findings/C12.json)" % FINDING_LOOSE,
         "findStopsGlobal on a track where every altitude of a reported stop is NaN raises ZeroDivisionError (the AVERAGER of no value) after the segmentation was computed: class '%s'; tracks where that can happen are generated once the class is listed in known_findings.json (findings/C12.json)" % FINDING_NANZ,
         "findStopsGlobal: when tracklib's minCircle returns None for a segment (three collinear boundary points met in some random orders of Welzl's algorithm) the code writes reward 0 where the documented criterion rewards the segment (theorems mincircle_none, mincircle_none_same_place about the routine's model; mincircle_none_only_collinear: never without three collinear entries); the model has this case (`small = none`), the oracle demands the optimum of the DOCUMENTED criterion and reports the loss (class '%s')" % FINDING_MINCIRCLE,
-        "findStops(track, spatial, temporal, MODE_STOPS_GLOBAL, verbose=False) passes `verbose` where findStopsGlobal expects `downsampling`: every stop is reported with id_ini = id_end = 0 (theorem find_stops_dispatch_silent; the model has the dispatcher: findStopsPy); the same positional slip exists for MODE_STOPS_RTK. Class '%s': the identifiers are judged against the track itself once the class is listed in known_findings.json (findings/C12.json); until then these calls are compared with the model only" % FINDING_DISPATCH,
         "findStopsGlobalForRTK (outside the property's anchors): its tests are still exclusive (`<= duration`, `< std_max`) and its source comment documents a factor 0.33 under the root that the code does not have; only the delegation and the correspondence of its matrix construction are checked",
         "simplify's built-in cost functions (modes 4-6: minimum bounding rectangle geometry) are a parameter of the model; the check evaluates the module's own functions with the requested tolerance",
     ]
@@ -299,7 +297,7 @@ class P(Prop):
                 "optimalPartition(MAXIMIZE); findStopsGlobal from the caller's arguments (findStopsGlobalPy): choice of the track "
                 "(downsampling > 1: the resampled copy), planimetric distance2DTo and elapsed time read from the observations (x, y, z, t), "
                 "the three tests, the final filter, id_ini / id_end / nb_points (multiplied by downsampling), errors on tracks of 0..2 "
-                "observations; the dispatcher findStops(..., MODE_STOPS_GLOBAL, verbose) (findStopsPy: verbose lands in downsampling); "
+                "observations; the dispatcher findStops(..., MODE_STOPS_GLOBAL, verbose) (findStopsPy: verbose goes by keyword, downsampling keeps its default 1); "
                 "util/geometrics.minCircle / minCircleOfPoints / __welzl / __circle and ENUCoords.__eq__ (Model/MinCircle.lean: random draws as an "
                 "explicit parameter, radii through their squares) as a routine of its own; inside findStopsGlobalPy minCircle's answers, the "
                 "temporal resampling, the RTK variant's geometry and simplify's built-in cost functions are parameters")
@@ -697,8 +695,9 @@ class P(Prop):
                     for p in pts[k:]:
                         p[2] += 60
         if "ds" not in c and form in ("pos", "verbose") and rng.random() < 0.3:
-            # the dispatcher findStops(track, spatial, temporal, MODE_STOPS_GLOBAL[, verbose]): `verbose` lands in findStopsGlobal's
-            # `downsampling` (model: findStopsPy / boolNum); "vdefault" = the argument is omitted (True)
+            # the dispatcher findStops(track, spatial, temporal, MODE_STOPS_GLOBAL[, verbose]): `verbose` goes by keyword, findStopsGlobal's
+            # `downsampling` keeps its default 1 (model: findStopsPy / dispatchDs); c["ds"] is the VERBOSE flag of this form;
+            # "vdefault" = the argument is omitted (True)
             form = "dispatch"
             c["ds"] = rng.choice([True, False, False])
             if c["ds"] and rng.random() < 0.5:
@@ -1516,7 +1515,7 @@ class P(Prop):
                 else:
                     # (id_ini, id_end, nb_points) of every stop; a segment on the boundary of the final filter is identified by
                     # the identifiers the model gives it
-                    ds = Fraction(case.get("ds", 1))
+                    ds = Fraction(1) if case.get("form") == "dispatch" else Fraction(case.get("ds", 1))
                     ids = {(i * ds, e * ds) for (i, e) in skip}
                     a = [[Fraction(x[0]), Fraction(x[1]), x[2]] for x in impl_out["stops"]]
                     a = [x for x in a if (x[0], x[1]) not in ids]
@@ -1680,12 +1679,9 @@ class P(Prop):
         segments; a stop lost because minCircle returned None in the final filter is the known finding."""
         n = g["n"]
         ds = Fraction(case.get("ds", 1))
-        dispatch_silent = case.get("form") == "dispatch" and not ds > 0
-        if dispatch_silent:
-            # findStops(track, spatial, temporal, MODE_STOPS_GLOBAL, False): the caller asked for no downsampling at all — the stops
-            # are to be identified in the track itself; judged once the finding is listed (known_findings.json)
-            if FINDING_DISPATCH not in self.listed:
-                return None
+        if case.get("form") == "dispatch":
+            # findStops(track, spatial, temporal, MODE_STOPS_GLOBAL[, verbose]): no downsampling was asked for — the stops are to
+            # be identified in the track itself, whatever `verbose` is (case["ds"] is the verbose flag of this form)
             ds = Fraction(1)
         if not ds > 0:
             return None
@@ -1697,7 +1693,7 @@ class P(Prop):
             a, e = Fraction(st[0]) / ds, Fraction(st[1]) / ds
             if a.denominator != 1 or e.denominator != 1 or not (last < a <= e <= n - 3):
                 return "stops reported %s: (id_ini, id_end) / downsampling are not disjoint segments of the candidates 0..%d in increasing order%s" % (
-                    out["stops"], n - 2, " — findStops passed verbose=False as downsampling" if dispatch_silent else "")
+                    out["stops"], n - 2, "")
             segs.append((int(a), int(e)))
             last = e
         got = sum((Dx[a][e + 1] for a, e in segs), Fraction(0))
@@ -1713,15 +1709,10 @@ class P(Prop):
                     return None
                 msg += " — minCircle returned a circle that does not enclose the segment(s) %s (row loops) / %s (final filter)" % (
                     [x[:2] for x in out.get("loose", [])], [x[:2] for x in out.get("loose_after", [])])
-            if dispatch_silent:
-                msg += " — findStops passed verbose=False as downsampling"
             return msg
         return None
 
     def classify(self, case, impl_out, msg):
-        if (case["kind"] == "stops" and case.get("form") == "dispatch" and case.get("ds") is False and msg
-                and "findStops passed verbose=False as downsampling" in str(msg)):
-            return FINDING_DISPATCH
         if case["kind"] == "stops" and not case.get("rtk") and msg and "minCircle returned None" in str(msg):
             return FINDING_MINCIRCLE
         if case["kind"] == "stops" and not case.get("rtk") and msg and "minCircle returned a circle that does not enclose" in str(msg):
@@ -1883,9 +1874,11 @@ P.theorems = P.theorems + [
     ("TracklibVerif.Props.C12Collection", "TV.C12.collection_simplify_each",
      "T3: TrackCollection.simplify(cost, MODE_SIMPLIFY_FREE / _MAXIMIZE) returns, in order, simplify(track, cost, mode) of every track (each optimal for the requested direction by simplify_modes); if it raises, some simplify(track, ...) raised that exception after the earlier tracks were simplified"),
     ("TracklibVerif.Props.C12Dispatch", "TV.C12.find_stops_dispatch_verbose",
-     "findStops(track, spatial, temporal, MODE_STOPS_GLOBAL[, True]) is findStopsGlobal with downsampling = 1 (verbose lands in the downsampling parameter; True is 1): find_stops_global applies to the dispatcher"),
+     "findStops(track, spatial, temporal, MODE_STOPS_GLOBAL[, True]) is findStopsGlobal with downsampling = 1 (verbose goes by keyword): find_stops_global applies to the dispatcher"),
     ("TracklibVerif.Props.C12Dispatch", "TV.C12.find_stops_dispatch_silent",
-     "finding stops-dispatch-verbose-as-downsampling as a theorem about the model: findStops(..., MODE_STOPS_GLOBAL, False) reports the same stops as downsampling = 1 but with id_ini = id_end = 0 for every stop"),
+     "findStops(..., MODE_STOPS_GLOBAL, False) returns exactly what findStopsGlobal(track, spatial, temporal) returns (downsampling = 1, same identifiers): the statement that was false before the repair of stops-dispatch-verbose-as-downsampling"),
+    ("TracklibVerif.Props.C12Dispatch", "TV.C12.find_stops_dispatch_silent_old",
+     "about the documented PRE-FIX variant findStopsPyOld only (verbose passed positionally as downsampling): verbose=False reported the same stops as downsampling = 1 but with id_ini = id_end = 0 for every stop"),
     ("TracklibVerif.Props.C12MinCircleStops", "TV.C12.stops_fit_in_circle_mincircle",
      "T3 with minCircle AS MODELLED (circOfMinCircle: minCircleOfPoints on the fixes of each segment, any draw sequence per call): if the circles returned enclose their segments and the call did not return None, the reward of (a,b) is (b-a)^2 exactly when the segment lasts >= duration and fits in SOME disc of diameter <= diameter; minimality is proved, no longer assumed"),
 ]
